@@ -462,6 +462,21 @@ impl<'l, Data> EventLoop<'l, Data> {
 
     fn dispatch_events(
         &mut self,
+        timeout: Option<Duration>,
+        data: &mut Data,
+    ) -> crate::Result<()> {
+        let ret = self.dispatch_events_inner(timeout, data);
+        if ret.is_err() {
+            // The dispatch was interrupted: the timers that expired but were not
+            // processed yet must not be lost
+            let poll = self.handle.inner.poll.borrow();
+            poll.timers.borrow_mut().requeue_expired();
+        }
+        ret
+    }
+
+    fn dispatch_events_inner(
+        &mut self,
         mut timeout: Option<Duration>,
         data: &mut Data,
     ) -> crate::Result<()> {
